@@ -47,8 +47,12 @@ func (b *Broker) start() {
 		case msgCh := <-b.subCh:
 			subs[msgCh] = struct{}{}
 		case msgCh := <-b.unsubCh:
-			delete(subs, msgCh)
-			close(msgCh)
+			// only a current subscription is closed: not nil (a Subscribe refused because the
+			// broker was ending), not a channel that has already been unsubscribed
+			if _, ok := subs[msgCh]; ok {
+				delete(subs, msgCh)
+				close(msgCh)
+			}
 		case msg := <-b.publishCh:
 			wg := sync.WaitGroup{}
 			for msgCh := range subs {
